@@ -224,9 +224,16 @@ BUILDERS = {
 def make_convention(it, c, convention, **kw):
     from pyvc.api import cls
     mod, name, builder = BUILDERS[convention]
+    order = kw.pop('coordinate_order', None)
     ds = builder(c, **kw)
     klass = cls(it, mod, name)
-    conv = it.instantiate(klass, [ds], {})
+    ctor = {}
+    if order is not None:
+        # ArakawaC given its coordinate names as a mapping, listed in the caller's order (any order is legal for a mapping)
+        kinds = cls(it, 'emsarray.conventions.arakawa_c', 'ArakawaCGridKind')
+        names = {'face': ('y_centre', 'x_centre'), 'left': ('y_left', 'x_left'), 'back': ('y_back', 'x_back'), 'node': ('y_grid', 'x_grid')}
+        ctor['coordinate_names'] = {it.getattr(kinds, k): names[k] for k in order}
+    conv = it.instantiate(klass, [ds], ctor)
     return ds, conv
 
 
@@ -238,6 +245,7 @@ def kind_member(it, convention, kind):
         'CFGrid2D': ('emsarray.conventions.grid', 'CFGridKind'),
         'ShocSimple': ('emsarray.conventions.grid', 'CFGridKind'),
         'ShocStandard': ('emsarray.conventions.arakawa_c', 'ArakawaCGridKind'),
+        'ArakawaC': ('emsarray.conventions.arakawa_c', 'ArakawaCGridKind'),
         'UGrid': ('emsarray.conventions.ugrid', 'UGridKind'),
     }[convention]
     e = cls(it, mod, en)
@@ -306,4 +314,5 @@ def ugrid_mesh(c, *, maxn=4, fill='int_fill', start_index=0, transposed=False, *
     return ds
 
 
+BUILDERS['ArakawaC'] = ('emsarray.conventions.arakawa_c', 'ArakawaC', shoc_standard)
 BUILDERS['UGridMesh'] = ('emsarray.conventions.ugrid', 'UGrid', ugrid_mesh)
